@@ -16,4 +16,5 @@ def main (args : List String) : IO UInt32 := do
   | ["pool"] => Driver.PoolC.main; return 0
   | ["kcpown"] => Driver.KcpOwnC.main; return 0
   | ["fecown"] => Driver.FecOwnC.main; return 0
+  | ["sessfec"] => Driver.SessFecC.main; return 0
   | _ => IO.eprintln "usage: kcpdriver <component>"; return 2
